@@ -131,9 +131,10 @@ def run_concrete(ob_harness, params, values, route, exclude=None):
     return res
 
 
-def replay_subprocess(harness, params, values, route="text", timeout=120, hashseed=None):
-    """Replay under the repository's own interpreter (3.12, no CrossHair)."""
-    req = json.dumps({"harness": harness, "params": params, "values": _jsonable(values), "route": route})
+def replay_subprocess(harness, params, values, route="text", timeout=120, hashseed=None, history=None):
+    """Replay under the repository's own interpreter (3.12, no CrossHair).  ``history``: inputs run (and ignored) first in the same process."""
+    req = json.dumps({"harness": harness, "params": params, "values": _jsonable(values), "route": route,
+                      "history": [_jsonable(h) for h in (history or [])]})
     env = dict(os.environ)
     env["PYTHONPATH"] = common.VERIF + os.pathsep + common.REPO
     env.pop("PDPY11_VERIF", None)
@@ -312,6 +313,22 @@ def _work(ob: Ob, known: List[Dict[str, Any]], conn):
                     res["messages"].append("counterexample could not be replayed: " + json.dumps(cex)[:3000])
                     break
                 if rp.get("ok") is True:
+                    # Inside the worker the twin ran before the claim: the same order in one fresh process
+                    wit = (res.get("twin") or {}).get("witness")
+                    rp_h = replay_subprocess(ob.harness, params, cv.cex, history=[_unjson(wit)]) if isinstance(wit, dict) else None
+                    if rp_h is not None and rp_h.get("ok") is False and not rp_h.get("harness_error"):
+                        res["replays"] += 1
+                        rp_h["history"] = [wit]
+                        cex = {"values": _jsonable(cv.cex), "detail": "fails only after an earlier run of the same harness in the same process "
+                                                                        "(reproduced in a fresh process: witness first, then this input)", "replay": rp_h}
+                        matched = _match_known(known, ob.oid, cv.cex, exclude)
+                        if matched is not None and matched["region"] not in exclude:
+                            res["known"].append({"id": matched["id"], "what": matched["what"], "cex": cex})
+                            exclude.append(matched["region"])
+                            continue
+                        res["status"] = "violated"
+                        res["cex"] = cex
+                        break
                     res["status"] = "harness_error"
                     res["messages"].append("counterexample does NOT reproduce through the text route under /venv/bin/python "
                                            "(encoding/shim wrong?): " + json.dumps(cex)[:3000])
